@@ -200,7 +200,12 @@ def _raw_effects(p):
                 and e[1][1][1] in hidden:
             continue
         if e[0] == "call":
-            out.append("call " + A.fmt(_known_none(p, e[1])))
+            # (the call itself is an event even when its result is None;
+            # only its operands are read as values)
+            t = e[1]
+            out.append("call " + A.fmt(
+                (t[0], t[1], tuple(_known_none(p, a) for a in t[2]))
+                + tuple(t[3:])))
         elif e[0] == "store":
             out.append("store %s = %s" % (A.fmt(e[1]),
                                           A.fmt(_known_none(p, e[2]))))
